@@ -46,18 +46,21 @@ CHECKS = {
              "argument positions use the same coerce_arguments code path and are exercised by C13's check.",
         design="4 C05"),
     "C01": dict(
-        technique="Coq theorems (CollectFields refinement, key uniqueness/order/merging) + spec-executor verdict "
-                  "and differential correspondence on the real engine",
-        text="Proved for all schemas/documents/variables: the engine's accumulator-passing collect_fields (shared "
-             "ordered dict + visited-fragment set) computes the grouping of the specification's CollectFields "
-             "traversal; response keys appear once, in first-appearance order, each holding exactly the fields "
-             "selecting it. The hand-written implementation model of the whole executor (collect, execute_fields, "
-             "resolve_field, output coercer chain, abstract type resolution, default resolvers) is run against the "
-             "real engine on generated requests (aliases, repeated keys, fragment DAGs with sharing, type "
-             "conditions, @skip/@include, variables, three ways of naming the runtime type) and compared inside Coq "
-             "on data, errors and the resolver call log (path, parent type, field, parent value, coerced args); "
-             "each observation is judged by a second, specification-style executor (spec_execute_operation). "
-             "PARTIAL: impl-model = spec-executor is checked per run, not yet proved for all inputs.",
+        technique="Coq refinement proof implementation executor -> specification executor (data), CollectFields refinement, key "
+                  "uniqueness/order/merging + spec-executor verdict and differential correspondence on the real engine",
+        text="Proved for all schemas/documents/variables/user code/configurations (C01_data_refines_spec): whenever the "
+             "specification's execution algorithm (CollectFields, ExecuteSelectionSet, ExecuteField, CompleteValue with the error "
+             "rule of 6.4.4, transcribed in Model/SpecExec.v) yields a result, the implementation model (accumulator-passing "
+             "collect_fields / collect_subfields over merged nodes, state-passing execute_fields in both sibling strategies, "
+             "the folded output coercer chain, raise/catch/MultipleException merging, abstract type resolution, default "
+             "resolvers) answers with exactly that data; per field at every depth (C01_field_refines_spec); collect_fields "
+             "computes the grouping of the specification's traversal; response keys appear once, in first-appearance order, "
+             "each holding exactly the fields selecting it. The hand-written implementation model is run against the real "
+             "engine on generated requests (aliases, repeated keys, fragment DAGs with sharing, type conditions, "
+             "@skip/@include incl. both on one node, variables incl. null at defaulted non-null arguments, three ways of naming "
+             "the runtime type) and compared inside Coq on data, errors and the resolver call log; each observation is also "
+             "judged by the specification executor. PARTIAL: equality of the resolver call log with the specification's is "
+             "decided per run.",
         note="Trusted: Coq kernel, correspondence harness + generators, parser stand-in; directive hooks other than "
              "@skip/@include absent (C13); errors and call log compared as multisets; message texts not compared.",
         design="4 C01"),
